@@ -184,7 +184,57 @@ def gen(rng, tier):
         cases.append({"kind": "pair", "cls": "pair", "field": "*", "dt": rng.choice(["float32", "float64", "int16", "complex64", "bool"]),
                       "shape": [rng.choice([2, 3, 4])] * 2, "layout": "T", "val": "random", "target": rng.choice(TARGETS),
                       "seed": rng.randrange(2 ** 30)})
+    # a graph read from a path is HELD while the path is overwritten by another model of the same architecture (and then deleted):
+    # the tensors already handed out must keep the bytes they were read with (they are copies, not windows onto the file)
+    for _ in range(6 if tier == "quick" else 60):
+        cases.append({"kind": "held", "cls": "held", "field": "*", "dt": rng.choice(["float32", "float64", "int64", "int16"]),
+                      "shape": rng.choice([[4], [3, 5], [64, 64], [2, 3, 4]]), "layout": "C", "val": "random",
+                      "target": rng.choice(["str", "path"]), "seed": rng.randrange(2 ** 30)})
     return cases
+
+
+def run_held(c):
+    import os
+    import pathlib
+    import shutil
+    import tempfile
+    import nir
+    sig = ("held", c["dt"], tuple(c["shape"]), c["target"])
+    rs = np.random.RandomState(c["seed"] % (2 ** 31))
+    def model(k):
+        w = (rs.standard_normal(c["shape"]) * 100 + k).astype(c["dt"])
+        b = (rs.standard_normal(c["shape"][-1:]) * 100 - k).astype(c["dt"])
+        return nir.NIRGraph({"a": nir.Scale(w), "t": nir.Threshold(b)}, [("a", "t")])
+    tmpdir = tempfile.mkdtemp(prefix="nirverif_c02_")
+    fail = None
+    try:
+        p = os.path.join(tmpdir, "model.nir")
+        tgt = p if c["target"] == "str" else pathlib.Path(p)
+        g1, g2 = model(1), model(2)
+        with quiet():
+            nir.write(tgt, g1)
+            r1 = nir.read(tgt)
+        want = [g1.nodes["a"].scale.tobytes(), g1.nodes["t"].threshold.tobytes()]
+        got = [np.ascontiguousarray(r1.nodes["a"].scale).tobytes(), np.ascontiguousarray(r1.nodes["t"].threshold).tobytes()]
+        if got != want:
+            fail = "tensor bytes changed in a plain write/read"
+        else:
+            with quiet():
+                nir.write(tgt, g2)
+            got = [np.ascontiguousarray(r1.nodes["a"].scale).tobytes(), np.ascontiguousarray(r1.nodes["t"].threshold).tobytes()]
+            if got != want:
+                fail = ("a graph read from a path changed its tensor bytes when the path was overwritten with another model "
+                        f"(dtype {c['dt']}, shape {c['shape']})")
+            else:
+                os.remove(p)
+                got = [np.ascontiguousarray(r1.nodes["a"].scale).tobytes(), np.ascontiguousarray(r1.nodes["t"].threshold).tobytes()]
+                if got != want:
+                    fail = "a graph read from a path changed its tensor bytes when the file was deleted"
+    except BaseException as e:  # noqa: BLE001
+        fail = f"write / read / overwrite of one path raised {type(e).__name__}: {str(e)[:120]}"
+    finally:
+        shutil.rmtree(tmpdir, ignore_errors=True)
+    return Outcome(None, fail, True, sig)
 
 
 def pair_recipe(c):
@@ -219,6 +269,8 @@ def get_field(g, c):
 
 def run(c):
     import nir
+    if c["cls"] == "held":
+        return run_held(c)
     if c["cls"] == "pair":
         arr = None
         r = pair_recipe(c)
